@@ -110,7 +110,7 @@ def report(prop, tier, verif_seed, mod, results, errors, wall, n, w, src):
                     merged[oracle] = rec
                 merged[oracle]["count"] = cur_count
     lines = []
-    replay_dir = os.path.join(ROOT, "replays", prop)
+    replay_dir = os.path.join(os.environ.get("VERIF_REPLAY_DIR") or os.path.join(ROOT, "replays"), prop)
     head = repo_head(src)
     for oracle, rec in sorted(merged.items()):
         os.makedirs(replay_dir, exist_ok=True)
@@ -178,8 +178,9 @@ def report(prop, tier, verif_seed, mod, results, errors, wall, n, w, src):
     extra = getattr(mod, "evidence_extra", None)
     if extra:
         evidence["coverage"].update(extra(stats, results))
-    os.makedirs(os.path.join(ROOT, "evidence"), exist_ok=True)
-    with open(os.path.join(ROOT, "evidence", f"{prop}.json"), "w") as f:
+    evdir = os.environ.get("VERIF_EVIDENCE_DIR") or os.path.join(ROOT, "evidence")
+    os.makedirs(evdir, exist_ok=True)
+    with open(os.path.join(evdir, f"{prop}.json"), "w") as f:
         json.dump(evidence, f, indent=1, default=str)
     print(f"{prop} {tier}: {runs} runs ({len(digests)} distinct non-trivial) in {wall:.1f}s, "
           f"{len(lines)} violation(s), {sum(known.values())} known-finding hit(s)"
